@@ -14,7 +14,10 @@ EXPLANATION = (
     "(3) Every record, free-slot header and file header is written to its full extent: both record writers, the "
     "free-slot push and the slot clear end with a zero pad up to offset + size, the three header initialisers write "
     "exactly the header size, and the hash-table creation sets the file length and writes the final 8 bytes. "
-    "(4) Read-only calls do not write (same purity query as C15), so splicing them in cannot change the image.")
+    "(4) Read-only calls do not write (same purity query as C15), so splicing them in cannot change the image. "
+    "(5) The stored item count is stepped from the value read from the file at that moment and written by the two "
+    "count steppers only (C05's count-step / count-writers): a copy left in memory by an earlier read-only call cannot "
+    "reach the header.")
 NOT_DECIDED = ("byte equality of two runs: allocation order is a function of the history only if the above hold and rabuf's "
                "buffer management is deterministic, which is assumed beyond clause 1.")
 ASSUMPTIONS = ["file contents are only produced by the analysed crates' write primitives"]
